@@ -564,6 +564,22 @@ pub fn par_cases<F>(ctx: &mut Ctx, total: u64, f: F)
 where
     F: Fn(u64, &mut Obs) + Sync,
 {
+    par_cases_opt(ctx, total, true, f)
+}
+
+/// `par_cases` without the failing calls ahead of cases and without second runs: for phases that
+/// want the process as it is (a sweep that must be the first thing the library sees).
+pub fn par_cases_pristine<F>(ctx: &mut Ctx, total: u64, f: F)
+where
+    F: Fn(u64, &mut Obs) + Sync,
+{
+    par_cases_opt(ctx, total, false, f)
+}
+
+fn par_cases_opt<F>(ctx: &mut Ctx, total: u64, company: bool, f: F)
+where
+    F: Fn(u64, &mut Obs) + Sync,
+{
     use std::sync::atomic::{AtomicU64, Ordering};
     let n = if ctx.shadow { 2 } else { threads(ctx.tier) };
     // lanes that slow execution down by one to four orders of magnitude shrink the workload
@@ -574,16 +590,19 @@ where
     let total = if ctx.shadow { (total / 8).max(1) } else { total };
     let next = AtomicU64::new(0);
     // C04 and C06 measure per-thread allocation peaks and CPU time around their own calls
-    let no_poison = matches!(ctx.prop.as_str(), "C04" | "C06") || std::env::var("VERIF_NO_POISON").is_ok();
-    let no_echo = std::env::var("VERIF_NO_ECHO").is_ok();
+    let no_poison = !company || matches!(ctx.prop.as_str(), "C04" | "C06") || std::env::var("VERIF_NO_POISON").is_ok();
+    let no_echo = !company || std::env::var("VERIF_NO_ECHO").is_ok();
     let cap = time_cap_s(ctx.tier);
     let start = ctx.start;
+    // a pristine phase starts all its workers at the same instant
+    let gate = std::sync::Barrier::new(if company { 1 } else { n });
     let results: Vec<Obs> = std::thread::scope(|s| {
         let handles: Vec<_> = (0..n)
             .map(|_| {
                 s.spawn(|| {
                     let mut obs = Obs::new();
                     let mut previous: Option<u64> = None;
+                    gate.wait();
                     loop {
                         let i = next.fetch_add(1, Ordering::Relaxed);
                         if i >= total {
